@@ -30,8 +30,11 @@ Addresses are `Nat < 2^160`, words `Nat < 2^256`, bytes `List Nat`.
 
 keccak256 is not modelled here: `KECCAK256` asks the oracle (`HostOp.keccak data`) like a host question.
 
-EOF: the EOF-only opcodes are modelled in legacy mode (`EOFOpcodeDisabledInLegacy` / `ReturnContractInNotInitEOF`);
-their EOF-mode behaviour lives in `Model/InterpEof.lean` when present. -/
+EOF: in legacy mode the EOF-only opcodes stop the frame (`EOFOpcodeDisabledInLegacy` / `ReturnContractInNotInitEOF`).
+In EOF mode (`IState.initEof`) RJUMP, RJUMPI, RJUMPV, CALLF, RETF, JUMPF, DUPN, SWAPN, EXCHANGE, DATALOAD, DATALOADN,
+DATASIZE, DATACOPY, RETURNDATALOAD are modelled; EOFCREATE, RETURNCONTRACT, EXTCALL, EXTDELEGATECALL, EXTSTATICCALL are
+`fault .notModelled`, and the `not_eof` opcodes keep their legacy handlers (they cannot occur in validated code; CODESIZE /
+CODECOPY would be an `assume!` violation there). -/
 namespace Revm.Model.Interp
 open Revm
 open Revm.Model.GasCalc (enabled)
@@ -101,10 +104,13 @@ inductive Fault
   | oobStack
   /-- a `SharedMemory` slice outside the running context (`debug_unreachable!` / `get_unchecked`) -/
   | oobMemory
+  /-- the model does not cover this instruction in this mode (EOFCREATE, RETURNCONTRACT, EXT*CALL in EOF mode) -/
+  | notModelled
   deriving DecidableEq, Repr
 
 def Fault.name : Fault → String
   | .panic => "panic" | .oobCode => "oob-code" | .oobStack => "oob-stack" | .oobMemory => "oob-memory"
+  | .notModelled => "not-modelled"
 
 /-! ## state -/
 
@@ -137,6 +143,20 @@ def Env.effectiveGasPrice (e : Env) : Nat :=
   | some p => min e.gasPrice (U256.wadd e.basefee p)
   | none => e.gasPrice
 
+/-- the EOF container of the contract as the instructions read it (`contract.bytecode.eof()`: code sections,
+types section, data section, `header.data_size`) and `Interpreter::function_stack` -/
+structure EofCtx where
+  sections : List (List Nat)
+  /-- `(inputs, outputs, max_stack_size)` per code section -/
+  types : List (Nat × Nat × Nat)
+  data : List Nat
+  dataSize : Nat
+  /-- `function_stack.current_code_idx` -/
+  curIdx : Nat := 0
+  /-- `function_stack.return_stack` as `(idx, pc)`, head = top -/
+  retStack : List (Nat × Nat) := []
+  deriving Repr
+
 /-- `struct Interpreter` (+ the `Contract` fields the instructions read) -/
 structure IState where
   /-- `Interpreter::bytecode` -/
@@ -163,6 +183,8 @@ structure IState where
   caller : Nat
   callValue : Nat
   env : Env
+  /-- `Some` iff the contract's bytecode is `Bytecode::Eof` -/
+  eof : Option EofCtx := none
 
 /-- `Interpreter::new(Contract::new(input, Bytecode::new_legacy(code), ..), gas_limit, is_static)` followed by
 `run(shared_memory, ..)` with the given memory -/
@@ -173,6 +195,16 @@ def IState.init (code input : List Nat) (gasLimit : Nat) (isStatic : Bool) (spec
     mem := mem, gas := Gas.new gasLimit, returnData := [], input := input, isStatic := isStatic,
     isEof := false, isEofInit := false, spec := spec, target := target, caller := caller,
     callValue := callValue, env := env }
+
+/-- `Interpreter::new` on a contract whose bytecode is an EOF container: `is_eof`, the running code is section 0
+(not padded), no jump table -/
+def IState.initEof (ctx : EofCtx) (input : List Nat) (gasLimit : Nat) (isStatic : Bool) (spec : Nat)
+    (target caller callValue : Nat) (env : Env) (mem : Memory.SharedMemory := Memory.new) : IState :=
+  let code := ctx.sections.headD []
+  { code := code, origLen := code.length, jumpTable := [], pc := 0, stack := [],
+    mem := mem, gas := Gas.new gasLimit, returnData := [], input := input, isStatic := isStatic,
+    isEof := true, isEofInit := false, spec := spec, target := target, caller := caller,
+    callValue := callValue, env := env, eof := some { ctx with curIdx := 0, retStack := [] } }
 
 /-! ## host questions, actions -/
 
@@ -444,45 +476,32 @@ def asUsizeOrFail (v : Nat) (reason : IResult := .InvalidOperandOOG) : M Nat :=
 /-- `as_usize_saturated!` / `as_u64_saturated!` -/
 def asUsizeSat (v : Nat) : Nat := U256.asU64Sat v
 
+/-- a `SharedMemory` result inside a handler: `panic` is a Rust panic, `ub` an access outside the context -/
+def memRes {α β} (r : Memory.Res α) (k : α → Exec β) : Exec β :=
+  match r with
+  | .ok a => k a
+  | .panic => .fault .panic
+  | .ub => .fault .oobMemory
+
 /-- `resize_memory!(interp, offset, len)` -/
 def resizeMem (offset len : Nat) : M Unit := fun s =>
-  match Memory.resizeMemoryMacro s.mem s.gas.remaining offset len with
-  | .ok (true, m, rem) => .ok () { s with mem := m, gas := { s.gas with remaining := rem } }
-  | .ok (false, _, _) => .halt .MemoryOOG [] s
-  | .panic => .fault .panic
-  | .ub => .fault .oobMemory
-
-def liftMemRead {α} (r : Memory.Res α) : M α :=
-  match r with
-  | .ok a => pure a
-  | .panic => faultWith .panic
-  | .ub => faultWith .oobMemory
+  memRes (Memory.resizeMemoryMacro s.mem s.gas.remaining offset len) fun r =>
+    if r.1 then .ok () { s with mem := r.2.1, gas := { s.gas with remaining := r.2.2 } }
+    else .halt .MemoryOOG [] s
 
 def liftMemWrite (f : Memory.SharedMemory → Memory.Res Memory.SharedMemory) : M Unit := fun s =>
-  match f s.mem with
-  | .ok m => .ok () { s with mem := m }
-  | .panic => .fault .panic
-  | .ub => .fault .oobMemory
+  memRes (f s.mem) fun m => .ok () { s with mem := m }
 
 /-- `shared_memory.slice(offset, len)` -/
 def memSlice (offset len : Nat) : M (List Nat) := fun s =>
-  match Memory.slice s.mem offset len with
-  | .ok a => .ok a s
-  | .panic => .fault .panic
-  | .ub => .fault .oobMemory
+  memRes (Memory.slice s.mem offset len) fun a => .ok a s
 
 /-- `shared_memory.slice_range(start..end)` -/
 def memSliceRange (start stop : Nat) : M (List Nat) := fun s =>
-  match Memory.sliceRange s.mem start stop with
-  | .ok a => .ok a s
-  | .panic => .fault .panic
-  | .ub => .fault .oobMemory
+  memRes (Memory.sliceRange s.mem start stop) fun a => .ok a s
 
 def memGetU256 (offset : Nat) : M Nat := fun s =>
-  match Memory.getU256 s.mem offset with
-  | .ok a => .ok a s
-  | .panic => .fault .panic
-  | .ub => .fault .oobMemory
+  memRes (Memory.getU256 s.mem offset) fun a => .ok a s
 
 def memSetU256 (offset v : Nat) : M Unit := liftMemWrite fun m => Memory.setU256 m offset v
 def memSetByte (offset b : Nat) : M Unit := liftMemWrite fun m => Memory.setByte m offset b
@@ -502,23 +521,38 @@ def advancePc (n : Nat) : M Unit := modifyS fun s => { s with pc := s.pc + n }
 def KECCAK_EMPTY : Nat := 0xc5d2460186f7233c927e7db2dcc703c0e500b653ca82273b7bfad8045d85a470
 def MAX_INITCODE_SIZE : Nat := 49152
 
+/-- the constant gas tiers of `gas/constants.rs` used by the `gas!(interp, gas::X)` handlers below -/
+inductive Tier | base | verylow | low | mid
+  deriving DecidableEq, Repr
+
+def Tier.cost : Tier → Nat
+  | .base => GasCalc.BASE
+  | .verylow => GasCalc.VERYLOW
+  | .low => GasCalc.LOW
+  | .mid => GasCalc.MID
+
 /-- the handlers, grouped by shape. Handlers that are one generic Rust function (`push::<N>`, `dup::<N>`,
 `swap::<N>`, `log::<N>`, `create::<IS_CREATE2>`) are one constructor; the arithmetic / comparison / bitwise
 handlers (`gas!; pop_top!; *top = f(..)`) are `unop` / `binop` / `terop` with their constant gas, activation fork and
 word function; the `gas!; push!(value)` handlers are `pushVal`. -/
 inductive Instr
   | stop | invalid | unknown
-  /-- an EOF-only opcode (`require_eof!` first) -/
+  /-- an EOF-only opcode whose EOF-mode behaviour is not modelled (`require_eof!` first): EOFCREATE, EXTCALL,
+  EXTDELEGATECALL, EXTSTATICCALL -/
   | eofOnly
+  | rjump | rjumpi | rjumpv | callf | retf | jumpf | dupn | swapn | exchange
+  | dataload | dataloadn | datasize | datacopy | returndataload
   /-- RETURNCONTRACT (`require_init_eof!` first) -/
   | returnContract
-  | unop (gas : Nat) (f : Nat → Nat)
-  | binop (gas fork : Nat) (f : Nat → Nat → Nat)
-  | terop (gas : Nat) (f : Nat → Nat → Nat → Nat)
+  | unop (gas : Tier) (f : Nat → Nat)
+  | binop (gas : Tier) (fork : Nat) (f : Nat → Nat → Nat)
+  | terop (gas : Tier) (f : Nat → Nat → Nat → Nat)
   | exp
   | keccak256
-  /-- `check!(fork); gas!(gas); push!(v)`; `v = none` is an `unwrap()` on `None` -/
-  | pushVal (gas fork : Nat) (v : IState → Option Nat)
+  /-- `check!(fork); gas!(gas); push!(v)` -/
+  | pushVal (gas : Tier) (fork : Nat) (v : IState → Nat)
+  /-- DIFFICULTY / PREVRANDAO (`host.env().block.prevrandao.unwrap()` from the Merge on) -/
+  | difficulty
   | calldataload | calldatacopy | codecopy | returndatacopy
   | blobhash
   | pop | push0 | push (n : Fin 32) | dup (n : Fin 16) | swap (n : Fin 16)
@@ -556,13 +590,22 @@ def expI : M Unit := do
   setTop (Arith.exp a b)
 
 /-- `check!; gas!; push!(v)` -/
-def pushValI (gas fork : Nat) (v : IState → Option Nat) : M Unit := do
+def pushValI (gas fork : Nat) (v : IState → Nat) : M Unit := do
   check fork
   gasCharge gas
   let s ← getS
-  match v s with
-  | some w => push w
-  | none => faultWith .panic
+  push (v s)
+
+/-- `host_env::difficulty`: `gas!(BASE)`, then `prevrandao.unwrap()` (a panic on `None`) from the Merge on,
+`difficulty` before -/
+def difficultyI : M Unit := do
+  gasCharge GasCalc.BASE
+  let s ← getS
+  if enabled s.spec GasCalc.SpecId.MERGE then
+    match s.env.prevrandao with
+    | some w => push w
+    | none => faultWith .panic
+  else push s.env.difficulty
 
 /-- big-endian value of the (≤ 32) bytes, right-padded with zeros to 32 -/
 def wordOfBytesPadded (bs : List Nat) : Nat := Memory.beToNat (bs ++ List.replicate (32 - bs.length) 0)
@@ -616,11 +659,17 @@ def blobhashI : M Unit := do
   let i := asUsizeSat idx
   setTop (match s.env.blobHashes[i]? with | some h => h | none => 0)
 
+/-- forget the popped word (`if let Err(result) = interpreter.stack.pop()`) -/
+def resVoid {α} : Stack.Res α → Stack.Res Unit
+  | .ok _ => .ok ()
+  | .err e => .err e
+  | .panic => .panic
+  | .ub => .ub
+
 /-- `stack::pop` -/
 def popI : M Unit := do
   gasCharge GasCalc.BASE
-  stackCall fun d => let r := Stack.pop d; (r.1, match r.2 with
-    | .ok _ => .ok () | .err e => .err e | .panic => .panic | .ub => .ub)
+  stackCall fun d => ((Stack.pop d).1, resVoid (Stack.pop d).2)
 
 /-- `stack::push0` -/
 def push0I : M Unit := do
@@ -714,19 +763,221 @@ def revertI : M Unit := do
   check GasCalc.SpecId.BYZANTIUM
   returnInner .Revert
 
+/-! ### EOF instructions (`control.rs`, `stack.rs`, `data.rs`, `system.rs::returndataload`)
+
+Relative jumps move the pointer by an immediate; nothing in the interpreter checks the result (validation does).
+A pointer moved before the buffer is `fault .oobCode` at once, a pointer moved behind it at the next fetch. -/
+
+/-- `*instruction_pointer.add(off)` -/
+def codeByte (off : Nat) : M Nat := fun s =>
+  match s.code[s.pc + off]? with
+  | some b => .ok b s
+  | none => .fault .oobCode
+
+/-- `read_u16(instruction_pointer.add(off))` -/
+def readU16 (off : Nat) : M Nat := do
+  let a ← codeByte off
+  let b ← codeByte (off + 1)
+  pure (a * 256 + b)
+
+/-- `read_i16` -/
+def readI16 (off : Nat) : M Int := do
+  let v ← readU16 off
+  pure (if v ≥ 32768 then (v : Int) - 65536 else (v : Int))
+
+/-- `instruction_pointer = instruction_pointer.offset(d)` -/
+def jumpRel (d : Int) : M Unit := fun s =>
+  let t := (s.pc : Int) + d
+  if t < 0 then .fault .oobCode else .ok () { s with pc := t.toNat }
+
+/-- `interpreter.eof().expect("eof")` -/
+def getEof : M EofCtx := fun s =>
+  match s.eof with
+  | some c => .ok c s
+  | none => .fault .panic
+
+/-- `Interpreter::load_eof_code(idx, pc)` -/
+def loadEofCode (idx pc : Nat) : M Unit := fun s =>
+  match s.eof with
+  | none => .fault .panic
+  | some c =>
+    match c.sections[idx]? with
+    | none => .fault .panic
+    | some code => .ok () { s with code := code, origLen := code.length, pc := pc }
+
+def setEof (f : EofCtx → EofCtx) : M Unit := modifyS fun s => { s with eof := s.eof.map f }
+
+/-- `as_isize_saturated!` -/
+def asIsizeSat (v : Nat) : Nat := min (U256.asU64Sat v) (2^63 - 1)
+
+def rjumpI : M Unit := do
+  requireEof
+  gasCharge GasCalc.BASE
+  let d ← readI16 0
+  jumpRel (d + 2)
+
+def rjumpiI : M Unit := do
+  requireEof
+  gasCharge GasCalc.CONDITION_JUMP_GAS
+  let c ← pop1
+  if c ≠ 0 then do
+    let d ← readI16 0
+    jumpRel (2 + d)
+  else jumpRel 2
+
+def rjumpvI : M Unit := do
+  requireEof
+  gasCharge GasCalc.CONDITION_JUMP_GAS
+  let c ← pop1
+  let case := asIsizeSat c
+  let maxIndex ← codeByte 0
+  let offset : Int := ((maxIndex + 1) * 2 + 1 : Nat)
+  if case ≤ maxIndex then do
+    let d ← readI16 (1 + case * 2)
+    jumpRel (offset + d)
+  else jumpRel offset
+
+/-- `stack.len() + (types.max_stack_size - types.inputs as u16) as usize > 1024` (`u16` subtraction, release: wraps) -/
+def calleeOverflows (stackLen : Nat) (t : Nat × Nat × Nat) : Bool :=
+  decide (stackLen + (t.2.2 + 65536 - t.1) % 65536 > 1024)
+
+def callfI : M Unit := do
+  requireEof
+  gasCharge GasCalc.LOW
+  let idx ← readU16 0
+  let c ← getEof
+  if c.retStack.length ≥ 1024 then haltWith .EOFFunctionStackOverflow else
+  match c.types[idx]? with
+  | none => faultWith .panic
+  | some t => do
+    let s ← getS
+    if calleeOverflows s.stack.length t then haltWith .StackOverflow else do
+    setEof fun c => { c with retStack := (c.curIdx, s.pc + 2) :: c.retStack, curIdx := idx }
+    loadEofCode idx 0
+
+def retfI : M Unit := do
+  requireEof
+  gasCharge GasCalc.RETF_GAS
+  let c ← getEof
+  match c.retStack with
+  | [] => faultWith .panic
+  | (idx, pc) :: rest => do
+    setEof fun c => { c with retStack := rest, curIdx := idx }
+    loadEofCode idx pc
+
+def jumpfI : M Unit := do
+  requireEof
+  gasCharge GasCalc.LOW
+  let idx ← readU16 0
+  let c ← getEof
+  match c.types[idx]? with
+  | none => faultWith .panic
+  | some t => do
+    let s ← getS
+    if calleeOverflows s.stack.length t then haltWith .StackOverflow else do
+    setEof fun c => { c with curIdx := idx }
+    loadEofCode idx 0
+
+/-- `if let Err(r) = stack.f(..) { result = r }; instruction_pointer += n` (the pointer moves in both cases) -/
+def stackCallAdv (f : List Nat → List Nat × Stack.Res Unit) (n : Nat) : M Unit := fun s =>
+  match f s.stack with
+  | (d, .ok _) => .ok () { s with stack := d, pc := s.pc + n }
+  | (_, .err e) => .halt (stackErr e) [] { s with pc := s.pc + n }
+  | (_, _) => .fault .oobStack
+
+def dupnI : M Unit := do
+  requireEof
+  gasCharge GasCalc.VERYLOW
+  let imm ← codeByte 0
+  stackCallAdv (fun d => Stack.dup d (imm + 1)) 1
+
+def swapnI : M Unit := do
+  requireEof
+  gasCharge GasCalc.VERYLOW
+  let imm ← codeByte 0
+  stackCallAdv (fun d => Stack.swap d (imm + 1)) 1
+
+def exchangeI : M Unit := do
+  requireEof
+  gasCharge GasCalc.VERYLOW
+  let imm ← codeByte 0
+  stackCallAdv (fun d => Stack.exchange d (imm / 16 + 1) (imm % 16 + 1)) 1
+
+/-- `Eof::data_slice(offset, len)` -/
+def dataSlice (data : List Nat) (offset len : Nat) : List Nat :=
+  if offset ≤ data.length then (data.drop offset).take (min len (data.length - offset)) else []
+
+def dataloadI : M Unit := do
+  requireEof
+  gasCharge GasCalc.DATA_LOAD_GAS
+  let off ← popTop1
+  let c ← getEof
+  setTop (wordOfBytesPadded (dataSlice c.data (asUsizeSat off) 32))
+
+def dataloadnI : M Unit := do
+  requireEof
+  gasCharge GasCalc.VERYLOW
+  let off ← readU16 0
+  let c ← getEof
+  push (wordOfBytesPadded (dataSlice c.data off 32))
+  advancePc 2
+
+def datasizeI : M Unit := do
+  requireEof
+  gasCharge GasCalc.BASE
+  let c ← getEof
+  push c.dataSize
+
+def datacopyI : M Unit := do
+  requireEof
+  gasCharge GasCalc.VERYLOW
+  let (memOff, off, size) ← pop3
+  let size ← asUsizeOrFail size
+  if size = 0 then pure () else do
+    let memOff ← asUsizeOrFail memOff
+    resizeMem memOff size
+    gasOrFail (GasCalc.costPerWord size GasCalc.VERYLOW)
+    let c ← getEof
+    memSetData memOff (asUsizeSat off) size c.data
+
+def returndataloadI : M Unit := do
+  requireEof
+  gasCharge GasCalc.VERYLOW
+  let off ← popTop1
+  let s ← getS
+  let o := asUsizeSat off
+  setTop (if o ≤ s.returnData.length then
+      wordOfBytesPadded ((s.returnData.drop o).take (min (s.returnData.length - o) 32))
+    else 0)
+
 /-- the pure instructions -/
 def execPure : Instr → Option (M Unit)
   | .stop => some (haltWith .Stop)
   | .invalid => some (haltWith .InvalidFEOpcode)
   | .unknown => some (haltWith .OpcodeNotFound)
-  | .eofOnly => some (do requireEof; faultWith .panic)
+  | .eofOnly => some (do requireEof; faultWith .notModelled)
   | .returnContract => some (fun s =>
-      if !s.isEofInit then .halt .ReturnContractInNotInitEOF [] s else .fault .panic)
-  | .unop g f => some (unopI g f)
-  | .binop g k f => some (binopI g k f)
-  | .terop g f => some (teropI g f)
+      if !s.isEofInit then .halt .ReturnContractInNotInitEOF [] s else .fault .notModelled)
+  | .rjump => some rjumpI
+  | .rjumpi => some rjumpiI
+  | .rjumpv => some rjumpvI
+  | .callf => some callfI
+  | .retf => some retfI
+  | .jumpf => some jumpfI
+  | .dupn => some dupnI
+  | .swapn => some swapnI
+  | .exchange => some exchangeI
+  | .dataload => some dataloadI
+  | .dataloadn => some dataloadnI
+  | .datasize => some datasizeI
+  | .datacopy => some datacopyI
+  | .returndataload => some returndataloadI
+  | .unop g f => some (unopI g.cost f)
+  | .binop g k f => some (binopI g.cost k f)
+  | .terop g f => some (teropI g.cost f)
   | .exp => some expI
-  | .pushVal g k v => some (pushValI g k v)
+  | .pushVal g k v => some (pushValI g.cost k v)
+  | .difficulty => some difficultyI
   | .calldataload => some calldataloadI
   | .calldatacopy => some (copyToMem fun s => s.input)
   | .codecopy => some (copyToMem fun s => s.code.take s.origLen)
@@ -1033,34 +1284,54 @@ def staticcallI : IState → Outcome :=
                     targetAddress := to, caller := s.target, valueTransfer := true, value := 0,
                     scheme := .staticCall, isStatic := true, isEof := false }))
 
+/-- `check!(interp, FORK)` under a compile-time condition (`if IS_CREATE2 { check!(..) }`) -/
+def checkWhen (b : Bool) (fork : Nat) : M Unit := if b then check fork else pure ()
+
+/-- `cfg.limit_contract_code_size.map(|l| l.saturating_mul(2)).unwrap_or(MAX_INITCODE_SIZE)` -/
+def maxInitcodeSize (e : Env) : Nat :=
+  match e.limitContractCodeSize with
+  | some l => U64ops.saturatingMul l 2
+  | none => MAX_INITCODE_SIZE
+
+/-- the EIP-3860 part of `create` (only for `len != 0`): the size limit from `host.env().cfg`, then
+`gas!(initcode_cost(len))` (`initcode_cost` panics on overflow) -/
+def initcodeCharge (len : Nat) : M Unit := do
+  let s ← getS
+  if enabled s.spec GasCalc.SpecId.SHANGHAI then
+    if len > maxInitcodeSize s.env then haltWith .CreateInitCodeSizeLimit else
+    match GasCalc.initcodeCost len with
+    | some c => gasCharge c
+    | none => faultWith .panic
+  else pure ()
+
+/-- the init code of `create`: nothing for `len == 0`, else limit + charge, `as_usize_or_fail!(code_offset)`,
+`resize_memory!`, copy -/
+def createCode (codeOffset len : Nat) : M (List Nat) :=
+  if len ≠ 0 then do
+    initcodeCharge len
+    let codeOffset ← asUsizeOrFail codeOffset
+    resizeMem codeOffset len
+    memSlice codeOffset len
+  else pure []
+
+/-- `CreateScheme` and its charge: CREATE2 pops the salt and pays `create2_cost(len)`, CREATE pays `gas::CREATE` -/
+def createScheme (isCreate2 : Bool) (len : Nat) : M (Option Nat) :=
+  if isCreate2 then do
+    let salt ← pop1
+    gasOrFail (GasCalc.create2Cost len)
+    pure (some salt)
+  else do
+    gasCharge GasCalc.CREATE
+    pure none
+
 /-- `contract::create::<IS_CREATE2>` (reads `host.env().cfg` only) -/
 def createI (isCreate2 : Bool) : M Action := do
   requireNonStatic
-  if isCreate2 then check GasCalc.SpecId.PETERSBURG else pure ()
+  checkWhen isCreate2 GasCalc.SpecId.PETERSBURG
   let (value, codeOffset, len) ← pop3
   let len ← asUsizeOrFail len
-  let code ← (if len ≠ 0 then do
-      let s ← getS
-      if enabled s.spec GasCalc.SpecId.SHANGHAI then do
-        let maxInitcodeSize := match s.env.limitContractCodeSize with
-          | some l => U64ops.saturatingMul l 2
-          | none => MAX_INITCODE_SIZE
-        if len > maxInitcodeSize then haltWith .CreateInitCodeSizeLimit else
-        match GasCalc.initcodeCost len with
-        | some c => gasCharge c
-        | none => faultWith .panic
-      else pure ()
-      let codeOffset ← asUsizeOrFail codeOffset
-      resizeMem codeOffset len
-      memSlice codeOffset len
-    else pure [])
-  let salt ← (if isCreate2 then do
-      let salt ← pop1
-      gasOrFail (GasCalc.create2Cost len)
-      pure (some salt)
-    else do
-      gasCharge GasCalc.CREATE
-      pure none)
+  let code ← createCode codeOffset len
+  let salt ← createScheme isCreate2 len
   let s ← getS
   let gasLimit := s.gas.remaining
   let gasLimit := if enabled s.spec GasCalc.SpecId.TANGERINE then U64ops.wsub gasLimit (gasLimit / 64) else gasLimit
@@ -1100,60 +1371,59 @@ open GasCalc GasCalc.SpecId in
 /-- the handler of an opcode byte -/
 def decode (op : Nat) : Instr :=
   if op = 0x00 then .stop
-  else if op = 0x01 then .binop VERYLOW FRONTIER Arith.add
-  else if op = 0x02 then .binop LOW FRONTIER Arith.mul
-  else if op = 0x03 then .binop VERYLOW FRONTIER Arith.sub
-  else if op = 0x04 then .binop LOW FRONTIER Arith.div
-  else if op = 0x05 then .binop LOW FRONTIER Arith.sdiv
-  else if op = 0x06 then .binop LOW FRONTIER Arith.rem
-  else if op = 0x07 then .binop LOW FRONTIER Arith.smod
-  else if op = 0x08 then .terop MID Arith.addmod
-  else if op = 0x09 then .terop MID Arith.mulmod
+  else if op = 0x01 then .binop .verylow FRONTIER Arith.add
+  else if op = 0x02 then .binop .low FRONTIER Arith.mul
+  else if op = 0x03 then .binop .verylow FRONTIER Arith.sub
+  else if op = 0x04 then .binop .low FRONTIER Arith.div
+  else if op = 0x05 then .binop .low FRONTIER Arith.sdiv
+  else if op = 0x06 then .binop .low FRONTIER Arith.rem
+  else if op = 0x07 then .binop .low FRONTIER Arith.smod
+  else if op = 0x08 then .terop .mid Arith.addmod
+  else if op = 0x09 then .terop .mid Arith.mulmod
   else if op = 0x0a then .exp
-  else if op = 0x0b then .binop LOW FRONTIER Arith.signextend
-  else if op = 0x10 then .binop VERYLOW FRONTIER Arith.lt
-  else if op = 0x11 then .binop VERYLOW FRONTIER Arith.gt
-  else if op = 0x12 then .binop VERYLOW FRONTIER Arith.slt
-  else if op = 0x13 then .binop VERYLOW FRONTIER Arith.sgt
-  else if op = 0x14 then .binop VERYLOW FRONTIER Arith.eq
-  else if op = 0x15 then .unop VERYLOW Arith.iszero
-  else if op = 0x16 then .binop VERYLOW FRONTIER Arith.bitand
-  else if op = 0x17 then .binop VERYLOW FRONTIER Arith.bitor
-  else if op = 0x18 then .binop VERYLOW FRONTIER Arith.bitxor
-  else if op = 0x19 then .unop VERYLOW Arith.bitnot
-  else if op = 0x1a then .binop VERYLOW FRONTIER Arith.byte
-  else if op = 0x1b then .binop VERYLOW CONSTANTINOPLE Arith.shl
-  else if op = 0x1c then .binop VERYLOW CONSTANTINOPLE Arith.shr
-  else if op = 0x1d then .binop VERYLOW CONSTANTINOPLE Arith.sar
+  else if op = 0x0b then .binop .low FRONTIER Arith.signextend
+  else if op = 0x10 then .binop .verylow FRONTIER Arith.lt
+  else if op = 0x11 then .binop .verylow FRONTIER Arith.gt
+  else if op = 0x12 then .binop .verylow FRONTIER Arith.slt
+  else if op = 0x13 then .binop .verylow FRONTIER Arith.sgt
+  else if op = 0x14 then .binop .verylow FRONTIER Arith.eq
+  else if op = 0x15 then .unop .verylow Arith.iszero
+  else if op = 0x16 then .binop .verylow FRONTIER Arith.bitand
+  else if op = 0x17 then .binop .verylow FRONTIER Arith.bitor
+  else if op = 0x18 then .binop .verylow FRONTIER Arith.bitxor
+  else if op = 0x19 then .unop .verylow Arith.bitnot
+  else if op = 0x1a then .binop .verylow FRONTIER Arith.byte
+  else if op = 0x1b then .binop .verylow CONSTANTINOPLE Arith.shl
+  else if op = 0x1c then .binop .verylow CONSTANTINOPLE Arith.shr
+  else if op = 0x1d then .binop .verylow CONSTANTINOPLE Arith.sar
   else if op = 0x20 then .keccak256
-  else if op = 0x30 then .pushVal BASE FRONTIER (fun s => some s.target)
+  else if op = 0x30 then .pushVal .base FRONTIER (fun s => s.target)
   else if op = 0x31 then .balance
-  else if op = 0x32 then .pushVal BASE FRONTIER (fun s => some s.env.origin)
-  else if op = 0x33 then .pushVal BASE FRONTIER (fun s => some s.caller)
-  else if op = 0x34 then .pushVal BASE FRONTIER (fun s => some s.callValue)
+  else if op = 0x32 then .pushVal .base FRONTIER (fun s => s.env.origin)
+  else if op = 0x33 then .pushVal .base FRONTIER (fun s => s.caller)
+  else if op = 0x34 then .pushVal .base FRONTIER (fun s => s.callValue)
   else if op = 0x35 then .calldataload
-  else if op = 0x36 then .pushVal BASE FRONTIER (fun s => some s.input.length)
+  else if op = 0x36 then .pushVal .base FRONTIER (fun s => s.input.length)
   else if op = 0x37 then .calldatacopy
-  else if op = 0x38 then .pushVal BASE FRONTIER (fun s => some s.origLen)
+  else if op = 0x38 then .pushVal .base FRONTIER (fun s => s.origLen)
   else if op = 0x39 then .codecopy
-  else if op = 0x3a then .pushVal BASE FRONTIER (fun s => some s.env.effectiveGasPrice)
+  else if op = 0x3a then .pushVal .base FRONTIER (fun s => s.env.effectiveGasPrice)
   else if op = 0x3b then .extcodesize
   else if op = 0x3c then .extcodecopy
-  else if op = 0x3d then .pushVal BASE BYZANTIUM (fun s => some s.returnData.length)
+  else if op = 0x3d then .pushVal .base BYZANTIUM (fun s => s.returnData.length)
   else if op = 0x3e then .returndatacopy
   else if op = 0x3f then .extcodehash
   else if op = 0x40 then .blockhash
-  else if op = 0x41 then .pushVal BASE FRONTIER (fun s => some s.env.coinbase)
-  else if op = 0x42 then .pushVal BASE FRONTIER (fun s => some s.env.timestamp)
-  else if op = 0x43 then .pushVal BASE FRONTIER (fun s => some s.env.number)
-  else if op = 0x44 then .pushVal BASE FRONTIER
-    (fun s => if enabled s.spec MERGE then s.env.prevrandao else some s.env.difficulty)
-  else if op = 0x45 then .pushVal BASE FRONTIER (fun s => some s.env.gasLimit)
-  else if op = 0x46 then .pushVal BASE ISTANBUL (fun s => some s.env.chainId)
+  else if op = 0x41 then .pushVal .base FRONTIER (fun s => s.env.coinbase)
+  else if op = 0x42 then .pushVal .base FRONTIER (fun s => s.env.timestamp)
+  else if op = 0x43 then .pushVal .base FRONTIER (fun s => s.env.number)
+  else if op = 0x44 then .difficulty
+  else if op = 0x45 then .pushVal .base FRONTIER (fun s => s.env.gasLimit)
+  else if op = 0x46 then .pushVal .base ISTANBUL (fun s => s.env.chainId)
   else if op = 0x47 then .selfbalance
-  else if op = 0x48 then .pushVal BASE LONDON (fun s => some s.env.basefee)
+  else if op = 0x48 then .pushVal .base LONDON (fun s => s.env.basefee)
   else if op = 0x49 then .blobhash
-  else if op = 0x4a then .pushVal BASE CANCUN (fun s => some (s.env.blobGasPrice.getD 0))
+  else if op = 0x4a then .pushVal .base CANCUN (fun s => s.env.blobGasPrice.getD 0)
   else if op = 0x50 then .pop
   else if op = 0x51 then .mload
   else if op = 0x52 then .mstore
@@ -1162,9 +1432,9 @@ def decode (op : Nat) : Instr :=
   else if op = 0x55 then .sstore
   else if op = 0x56 then .jump
   else if op = 0x57 then .jumpi
-  else if op = 0x58 then .pushVal BASE FRONTIER (fun s => some (s.pc - 1))
-  else if op = 0x59 then .pushVal BASE FRONTIER (fun s => some (Memory.len s.mem))
-  else if op = 0x5a then .pushVal BASE FRONTIER (fun s => some s.gas.remaining)
+  else if op = 0x58 then .pushVal .base FRONTIER (fun s => s.pc - 1)
+  else if op = 0x59 then .pushVal .base FRONTIER (fun s => Memory.len s.mem)
+  else if op = 0x5a then .pushVal .base FRONTIER (fun s => s.gas.remaining)
   else if op = 0x5b then .jumpdest
   else if op = 0x5c then .tload
   else if op = 0x5d then .tstore
@@ -1174,8 +1444,19 @@ def decode (op : Nat) : Instr :=
   else if h : 0x80 ≤ op ∧ op ≤ 0x8f then .dup ⟨op - 0x80, by omega⟩
   else if h : 0x90 ≤ op ∧ op ≤ 0x9f then .swap ⟨op - 0x90, by omega⟩
   else if h : 0xa0 ≤ op ∧ op ≤ 0xa4 then .log ⟨op - 0xa0, by omega⟩
-  else if 0xd0 ≤ op ∧ op ≤ 0xd3 then .eofOnly
-  else if 0xe0 ≤ op ∧ op ≤ 0xe8 then .eofOnly
+  else if op = 0xd0 then .dataload
+  else if op = 0xd1 then .dataloadn
+  else if op = 0xd2 then .datasize
+  else if op = 0xd3 then .datacopy
+  else if op = 0xe0 then .rjump
+  else if op = 0xe1 then .rjumpi
+  else if op = 0xe2 then .rjumpv
+  else if op = 0xe3 then .callf
+  else if op = 0xe4 then .retf
+  else if op = 0xe5 then .jumpf
+  else if op = 0xe6 then .dupn
+  else if op = 0xe7 then .swapn
+  else if op = 0xe8 then .exchange
   else if op = 0xec then .eofOnly
   else if op = 0xee then .returnContract
   else if op = 0xf0 then .create false
@@ -1184,7 +1465,8 @@ def decode (op : Nat) : Instr :=
   else if op = 0xf3 then .ret
   else if op = 0xf4 then .delegatecall
   else if op = 0xf5 then .create true
-  else if 0xf7 ≤ op ∧ op ≤ 0xf9 then .eofOnly
+  else if op = 0xf7 then .returndataload
+  else if 0xf8 ≤ op ∧ op ≤ 0xf9 then .eofOnly
   else if op = 0xfa then .staticcall
   else if op = 0xfb then .eofOnly
   else if op = 0xfd then .revert
